@@ -92,10 +92,12 @@ Assign(o, v) ==
   /\ Touch(o) /\ wire' = <<>>
   /\ UNCHANGED <<phase, tor, view, tracked, inflight, busy, devUsed>>
 
-\* in-place edit of the list that reading the attribute returns
-\* (not combined with a pending assignment of the same option: that reads back the saved list)
+\* in-place edit of the list that reading the attribute returns.  Reads return the running
+\* configuration, so when the option has a pending value that is another object (an assignment,
+\* or an in-place edit overtaken by a change event) the edited list becomes the pending value:
+\* the user's latest read-edit is what save sends.
 ListOp(o, newv) ==
-  /\ phase = "attached" /\ o \in Lists /\ (o \in SeqToSet(pend) => shared[o])
+  /\ phase = "attached" /\ o \in Lists
   /\ SeqToSet(newv) \subseteq Elems \cup SeqToSet(view[o]) /\ Len(newv) <= MaxLen + 1
   /\ newv # view[o]
   /\ view' = [view EXCEPT ![o] = newv]
@@ -155,9 +157,11 @@ SaveReject ==
   /\ inflight' = <<>> /\ busy' = FALSE /\ after' = {} /\ wire' = <<>>
   /\ UNCHANGED <<phase, tor, view, tracked, pend, pval, shared, intent, dirty, devUsed, cnt>>
 
-\* another controller changed option o (which has no local pending change); Tor announces it
+\* another controller changed option o; Tor announces it.  Reads return the new value at once; a
+\* local change of o that is still pending stays pending (save will send it) but is no longer the
+\* object reads return.
 ConfChanged(o, vals) ==
-  /\ phase = "attached" /\ ~busy /\ o \in Options /\ o \notin SeqToSet(pend) /\ o \notin SeqToSet(dirty)
+  /\ phase = "attached" /\ ~busy /\ o \in Options
   /\ IF o \in Scalars THEN Len(vals) <= 1 /\ SeqToSet(vals) \subseteq SVals ELSE SeqToSet(vals) \subseteq Elems /\ Len(vals) <= MaxLen
   /\ tor' = [tor EXCEPT ![o] = vals]
   /\ LET ideal == IF vals = <<>> THEN Def(o) ELSE vals
@@ -169,9 +173,10 @@ ConfChanged(o, vals) ==
      IN \E nv \in asis :
           /\ view' = [view EXCEPT ![o] = nv]
           /\ devUsed' = IF nv # ideal THEN devUsed \cup {"c11_default_marker"} ELSE devUsed
-  /\ intent' = [intent EXCEPT ![o] = IF vals = <<>> THEN Def(o) ELSE vals]
+  /\ intent' = IF o \in SeqToSet(pend) THEN intent ELSE [intent EXCEPT ![o] = IF vals = <<>> THEN Def(o) ELSE vals]
+  /\ shared' = [shared EXCEPT ![o] = FALSE]
   /\ cnt' = [cnt EXCEPT !.evs = @ + 1] /\ wire' = <<>>
-  /\ UNCHANGED <<phase, tracked, pend, pval, shared, inflight, busy, dirty, after>>
+  /\ UNCHANGED <<phase, tracked, pend, pval, inflight, busy, dirty, after>>
 
 Next ==
   \/ \E store \in Stores : Attach(store)
